@@ -30,7 +30,10 @@ def make_repo(h, time_step=2 * 86400):
     commits, tags = {}, {}
     for c in range(1, h['n'] + 1):
         ps = sorted(h['parents'][c - 1], reverse=(c % 2 == 0))
-        commits[c] = (ps, ('BUG-7 fix %d' % c) if h['match'][c - 1] else ('other %d' % c), {})
+        # a matching commit mentions the search text somewhere in its message: first line, or only in a trailer
+        msg = (('BUG-7 fix %d', 'fix %d\n\nRefs: BUG-7\n', 'fix %d (BUG-7)\nsecond line')[c % 3] % c) if h['match'][c - 1] else (
+            ('other %d', 'other %d\n\nRefs: BUG-8')[c % 2] % c)
+        commits[c] = (ps, msg, {})
         if h['tagged'][c - 1]:
             tags['build_%d_release_1_0_success' % (100 + c)] = c
     return ghmock.Repo('r1', commits, tags, dict(h['head']), time_step=time_step)
